@@ -374,6 +374,32 @@ def q8(run: Run, m: Master):
     verbosity."""
     f, key = m.f, m.f.qualname
     n = 0
+    # the function as written (helpers not inlined): a generator helper handed
+    # out as an object is a one-shot iterator, too
+    prog = getattr(m, "prog", None)
+    if prog is not None and f.cls is not None:
+        o = prog.lookup(f.cls, f.name)
+        if o is not None and o.node is not f.node:
+            f = o
+
+    def is_generator_call(v):
+        if not isinstance(v, ast.Call) or prog is None:
+            return False
+        h = None
+        if isinstance(v.func, ast.Attribute) and isinstance(v.func.value, ast.Name) and \
+                f.cls is not None and (v.func.value.id in ("self", "cls") or
+                                       v.func.value.id in prog.classes):
+            h = prog.lookup(prog.classes.get(v.func.value.id, f.cls), v.func.attr)
+        elif isinstance(v.func, ast.Name):
+            r_ = prog.resolve_name(f.module, v.func.id)
+            h = r_[1] if r_ and r_[0] == "func" else None
+        if h is None:
+            return False
+        own = [y for y in ast.walk(h.node) if isinstance(y, (ast.Yield, ast.YieldFrom))]
+        nested = [y for d in ast.walk(h.node) if d is not h.node and
+                  isinstance(d, (ast.FunctionDef, ast.Lambda)) for y in ast.walk(d)
+                  if isinstance(y, (ast.Yield, ast.YieldFrom))]
+        return any(y not in nested for y in own)
     for st in ast.walk(f.node):
         if not (isinstance(st, ast.Assign) and len(st.targets) == 1 and
                 isinstance(st.targets[0], ast.Name)):
@@ -381,7 +407,7 @@ def q8(run: Run, m: Master):
         v = st.value
         one_shot = isinstance(v, ast.GeneratorExp) or (
             isinstance(v, ast.Call) and isinstance(v.func, ast.Name) and
-            v.func.id in _ONE_SHOT)
+            v.func.id in _ONE_SHOT) or is_generator_call(v)
         if not one_shot:
             continue
         name = st.targets[0].id
